@@ -5,13 +5,19 @@
 (* slot, run time, validators covered), the log of executed duties, the duty requests the       *)
 (* scripted beacon node saw, the replies it still holds back.  A line is explained by the       *)
 (* stimulus action followed by the controller's internal steps (silent) up to the point where   *)
-(* nothing is left to do; there the spec's state must equal the logged one.  Internal steps of   *)
-(* tasks working on different epochs / duty kinds commute, so they are taken in one fixed order; *)
-(* all interleavings are explored when two tasks work on the same epoch and kind.               *)
+(* nothing is left to do; there the spec's state must equal the logged one (job table, executed *)
+(* duties, the calls waiting at the delaying interfaces) and the changes made to the job table   *)
+(* on the way must be the ones the recording scheduler saw (every successful ScheduleJob,       *)
+(* CancelJob, RunJob and timer start, as a bag).  Internal steps are Controller!Internal: all    *)
+(* interleavings among tasks that share job names.  A stimulus that found nothing to act on in   *)
+(* the real run (a job to fire that is not there, a call to release that is not waiting) is     *)
+(* accepted as a no-op where the specification has nothing there either: the scenario may have  *)
+(* been generated along another of the orders the specification leaves open.                    *)
 EXTENDS Controller, TraceLib
 
-VARIABLES l, phase, fs
-tvars == <<vars, l, phase, fs>>
+VARIABLES l, phase, fs,
+          cs        \* bag of changes to the job table since the stimulus: <<"add" / "rm", kind, n>>
+tvars == <<vars, l, phase, fs, cs>>
 
 Line == Trace[l]
 
@@ -33,42 +39,57 @@ Fresh(c, o, n) ==
 TraceInit ==
     /\ Init
     /\ now = 0
-    /\ l = 1 /\ phase = "stim" /\ fs = {}
+    /\ l = 1 /\ phase = "stim" /\ fs = {} /\ cs = Empty
     /\ InitHWM
 
 AtLine(e) == l <= TraceLen /\ Line.ev = e /\ phase = "stim"
-Stim == l' = l /\ phase' = "settle" /\ fs' = {}
+BagPlus(a, b) == [x \in (DOMAIN a) \cup (DOMAIN b) |-> Get(a, x, 0) + Get(b, x, 0)]
+Delta(js, js2) == [x \in {<<"rm", nm[1], nm[2]>> : nm \in (DOMAIN js) \ (DOMAIN js2)}
+                          \cup {<<"add", nm[1], nm[2]>> : nm \in (DOMAIN js2) \ (DOMAIN js)} |-> 1]
+\* (a new scheduler comes with a restart: its log starts empty)
+Stim == /\ l' = l /\ phase' = "settle" /\ fs' = {}
+        /\ cs' = IF Line.ev \in {"Start", "Crash"} THEN Empty ELSE Delta(jobs, jobs')
 
 TraceReset ==
     /\ AtLine("Reset")
     /\ Fresh([Line.cfg EXCEPT !.vals = SeqToSet(@)],
              [att |-> SeqToSet(Line.oracle.att), prop |-> SeqToSet(Line.oracle.prop), sync |-> SeqToSet(Line.oracle.sync)],
              Line.now)
-    /\ l' = l + 1 /\ phase' = "stim" /\ fs' = {}
+    /\ l' = l + 1 /\ phase' = "stim" /\ fs' = {} /\ cs' = Empty
 
 TraceStart == AtLine("Start") /\ Start(Line.w) /\ Stim
 TraceCrash == AtLine("Crash") /\ Crash /\ Stim
-TraceAdvance == AtLine("Advance") /\ Advance /\ now' = Line.now /\ Stim
+\* the scheduler's timeliness (no job left behind by the clock, earliest first) is an assumption under
+\* which scenarios are generated, not something a trace is rejected for: a scenario generated along one
+\* of the orders the specification leaves open may meet another job table in the real run
+TraceAdvance == AtLine("Advance") /\ AdvanceStep /\ now' = Line.now /\ Stim
 TraceReorg == AtLine("Reorg") /\ Reorg(Line.b) /\ Stim
 TraceEpochTick == AtLine("EpochTick") /\ Line.fired /\ EpochTick /\ Stim
 TraceHeadEvent == AtLine("HeadEvent") /\ (\E o \in BOOLEAN : HeadEvent(o)) /\ Stim
-TraceFire == AtLine("Fire") /\ Line.fired /\ Fire(<<Line.k, Line.n>>, Line.h) /\ Stim
+TraceFire == AtLine("Fire") /\ Line.fired /\ FireStep(<<Line.k, Line.n>>, Line.h) /\ Stim
+TraceFireNone == AtLine("Fire") /\ ~Line.fired /\ <<Line.k, Line.n>> \notin DOMAIN jobs /\ UNCHANGED vars /\ Stim
 TraceHold == AtLine("Hold") /\ Hold(Line.k, Line.on) /\ Stim
-TraceRelease == AtLine("Release") /\ Line.released /\ (\E t \in tasks : t.k = Line.k /\ t.key = Line.n /\ t.ver = Line.ver /\ Release(t)) /\ Stim
+LineCall == <<Line.k, Line.n, Line.ver, Line.jk>>
+TraceRelease ==
+    /\ AtLine("Release") /\ Line.released
+    /\ \E t \in tasks :
+          /\ LineCall \in ParkedCalls(t)
+          /\ IF t.st = "sched"
+             THEN \E d \in t.duties : d.blk /\ d.slot = Line.n /\ d.jk = Line.jk /\ ReleaseSched(t, d)
+             ELSE Release(t)
+    /\ Stim
+TraceReleaseNone ==
+    /\ AtLine("Release") /\ ~Line.released
+    /\ ~\E t \in tasks : LineCall \in ParkedCalls(t)
+    /\ UNCHANGED vars /\ Stim
 
-\* two tasks at work on the same duty kind and epoch / period: their steps do not commute
-Active == {t \in tasks : t.st # "held"}
-Conflicted == \E t \in Active, u \in Active : t # u /\ t.k = u.k /\ t.key = u.key
 FetchesOf(ts, ts2) == {<<t.k, t.key, KeyVer(t.k, t.key)>> : t \in {x \in ts : x.st = "fetch" /\ x \notin ts2}}
 
 TraceInternal ==
-    /\ phase = "settle" /\ Active # {}
-    /\ IF Conflicted
-       THEN Internal
-       ELSE LET t == CHOOSE x \in Active : TRUE IN
-              \/ Fetch(t) \/ Filter(t) \/ Cancel(t)
-              \/ (t.st = "sched" /\ LET d == CHOOSE x \in t.duties : TRUE IN SchedOne(t, d))
+    /\ phase = "settle"
+    /\ Internal
     /\ fs' = fs \cup FetchesOf(tasks, tasks')
+    /\ cs' = BagPlus(cs, Delta(jobs, jobs'))
     /\ UNCHANGED <<l, phase>>
 
 \* projections compared with the log
@@ -91,12 +112,15 @@ NoDuplicateNames(line) == Cardinality({<<j.k, j.n>> : j \in SeqToSet(line.jobs)}
 LoggedDone(line) ==
     LET recs == [i \in 1..Len(line.done) |-> [k |-> line.done[i].k, n |-> line.done[i].n, vals |-> SeqToSet(line.done[i].vals)]]
     IN [x \in {recs[i] : i \in 1..Len(recs)} |-> Cardinality({i \in 1..Len(recs) : recs[i] = x})]
-LoggedHeld(line) == {<<line.held[i].k, line.held[i].key, line.held[i].ver>> : i \in 1..Len(line.held)}
-HeldView == {<<t.k, t.key, t.ver>> : t \in {x \in tasks : x.st = "held"}}
-HeldCount == LET H == {x \in tasks : x.st = "held"}
-                 RECURSIVE Sum(_)
-                 Sum(S) == IF S = {} THEN 0 ELSE LET x == CHOOSE y \in S : TRUE IN x.cnt + Sum(S \ {x})
-             IN Sum(H)
+LoggedHeld(line) ==
+    LET e(i) == <<line.held[i].k, line.held[i].key, line.held[i].ver, line.held[i].jk>>
+    IN [c \in {e(i) : i \in 1..Len(line.held)} |-> Cardinality({i \in 1..Len(line.held) : e(i) = c})]
+HeldView ==
+    LET H == UNION {{<<t.id, c>> : c \in ParkedCalls(t)} : t \in tasks}
+    IN [c \in {p[2] : p \in H} |-> Cardinality({p \in H : p[2] = c})]
+LoggedCalls(line) ==
+    LET e(i) == <<line.calls[i].op, line.calls[i].k, line.calls[i].n>>
+    IN [c \in {e(i) : i \in 1..Len(line.calls)} |-> Cardinality({i \in 1..Len(line.calls) : e(i) = c})]
 LoggedFetches(line) == {<<line.fetches[i].k, line.fetches[i].key, line.fetches[i].ver>> : i \in 1..Len(line.fetches)}
 
 Matches ==
@@ -104,13 +128,14 @@ Matches ==
     /\ NoDuplicateNames(Line) /\ PrepTimesOk(Line)
     /\ LoggedJobs(Line) = JobView(jobs)
     /\ LoggedDone(Line) = done
-    /\ LoggedHeld(Line) = HeldView /\ Len(Line.held) = HeldCount
+    /\ LoggedHeld(Line) = HeldView
+    /\ LoggedCalls(Line) = cs                 \* the job table changed as the recording scheduler saw it change
     /\ fs \subseteq LoggedFetches(Line)        \* every duty request the specification makes was seen by the node
 
 \* diagnostics only: what the specification expected where the log differs (never enabled)
 TraceMismatch ==
     /\ phase = "settle" /\ l <= TraceLen /\ Settled /\ ~Matches
-    /\ PrintT(<<"EXPECTED_AT", l, [jobs |-> JobView(jobs), done |-> done, up |-> up, held |-> HeldView, fetches |-> fs]>>)
+    /\ PrintT(<<"EXPECTED_AT", l, [jobs |-> JobView(jobs), done |-> done, up |-> up, held |-> HeldView, fetches |-> fs, calls |-> cs]>>)
     /\ FALSE
     /\ UNCHANGED tvars
 
@@ -118,12 +143,12 @@ TraceMatch ==
     /\ phase = "settle" /\ l <= TraceLen
     /\ Settled
     /\ Matches
-    /\ l' = l + 1 /\ phase' = "stim" /\ fs' = {}
+    /\ l' = l + 1 /\ phase' = "stim" /\ fs' = {} /\ cs' = Empty
     /\ UNCHANGED vars
 
 TraceNext ==
     \/ TraceReset \/ TraceStart \/ TraceCrash \/ TraceAdvance \/ TraceReorg \/ TraceEpochTick
-    \/ TraceHeadEvent \/ TraceFire \/ TraceHold \/ TraceRelease
+    \/ TraceHeadEvent \/ TraceFire \/ TraceFireNone \/ TraceHold \/ TraceRelease \/ TraceReleaseNone
     \/ TraceInternal \/ TraceMatch \/ TraceMismatch
 
 TraceSpec == TraceInit /\ [][TraceNext]_tvars
